@@ -1170,6 +1170,17 @@ GROUPS.append(("FnsLoad4.lean", ["Sds.Model.WM", "Sds.Generated.FnsLoad"], [
              "Option::<SelectSupport<Identity>>::load": dict(lean="gen_Option_SelectSupport_load m {0}", ret=("O", ("N", "SelectI")), load=True),
              "Option::<SelectSupport<Complement>>::load": dict(lean="gen_Option_SelectSupport_load m {0}", ret=("O", ("N", "SelectC")), load=True)})),
 ]))
+# ---- the composite loaders over the FULL bitvector loader: SparseVector::load, WMCore::load, WaveletMatrix::load with every inner
+# `T::load` translated (no model codec anywhere below)
+FULL_LOADS = dict(LOADS, **{"BitVector::load": dict(lean="gen_BitVector_load_full m {0}", ret=BV, load=True)})
+GROUPS.append(("FnsLoad5.lean", ["Sds.Model.WM", "Sds.Generated.FnsLoad4", "Sds.Generated.FnsConstr5"], [
+    dict(file="sparse_vector.rs", impl=r"impl Serialize for SparseVector\b", fn="load", name="gen_SparseVector_load_full", reader="reader",
+         ret=("N", "SparseVector"), calls=FULL_LOADS),
+    dict(file="wavelet_matrix/wm_core.rs", impl=r"impl Serialize for WMCore\b", fn="load", name="gen_WMCore_load_full", reader="reader", ret=("N", "WMCore"),
+         calls=dict(WMLOAD_CALLS, **{"BitVector::load": dict(lean="gen_BitVector_load_full m {0}", ret=BV, load=True)}), structs_over={"WMCore": WMCORE_STRUCT}),
+    dict(file="wavelet_matrix.rs", impl=r"impl Serialize for WaveletMatrix\b", fn="load", name="gen_WaveletMatrix_load_full2", reader="reader",
+         ret=("N", "WaveletMatrix"), calls=dict(LOADS, **{"WMCore::load": dict(lean="gen_WMCore_load_full m {0}", ret=("N", "WMCore"), load=True)})),
+]))
 GROUPS.append(("FnsLoad2.lean", ["Sds.Model.RL", "Sds.Generated.FnsLoad", "Sds.Generated.FnsConstr"], [
     dict(file="rl_vector.rs", impl=r"impl Serialize for RLVector\b", fn="load", name="gen_RLVector_load", reader="reader", ret=RLV_T, calls=RLLOAD_CALLS,
          structs_over={"RLVector": RLVEC_STRUCT}),
